@@ -683,6 +683,63 @@ fn cps(text: &str) -> String {
     join(text.chars().map(|c| c as u32))
 }
 
+/// strings for the parsing property
+pub fn c12_tokens_alphabet() -> Vec<char> {
+    let mut v: Vec<char> = "AKQJT098765432akqjtSHDCshdc♠♥♦♣♤♡♢♧".chars().collect();
+    v.extend([' ', '\t', '\u{a0}', '\u{3000}', 'é', '€', '😀', '\0', '1', 'x', '_']);
+    v
+}
+pub fn c12_strings(rng: &mut Rng, thorough: bool) -> Vec<(String, String)> {
+    let alpha = c12_tokens_alphabet();
+    let mut out: Vec<(String, String)> = vec![("empty".into(), String::new())];
+    for &a in &alpha {
+        out.push(("one-char".into(), a.to_string()));
+        for &b in &alpha {
+            for tail in ["", "x", "10", "♠♠"] {
+                out.push(("two-leading-chars+tail".into(), format!("{a}{b}{tail}")));
+            }
+        }
+    }
+    let seps = [" ", "  ", "\t", "\n", "\u{a0}", " \u{2003}", "\u{3000}", "\r\n", "\u{85}"];
+    let ranks: Vec<char> = "AKQJT98765432akqjt0".chars().collect();
+    let suits: Vec<char> = "SHDCshdc♠♥♦♣♤♡♢♧".chars().collect();
+    for ntok in 0..=9usize {
+        for _ in 0..(if thorough { 400 } else { 60 }) {
+            let mut t = String::new();
+            if rng.below(3) == 0 { t.push_str(seps[rng.below(seps.len() as u64) as usize]); }
+            for k in 0..ntok {
+                match rng.below(8) {
+                    0 => t.push('x'),
+                    1 => { t.push(ranks[rng.below(ranks.len() as u64) as usize]); }
+                    _ => {
+                        t.push(ranks[rng.below(ranks.len() as u64) as usize]);
+                        t.push(suits[rng.below(suits.len() as u64) as usize]);
+                        if rng.below(5) == 0 { t.push_str("!?"); }
+                    }
+                }
+                if k + 1 < ntok || rng.below(3) == 0 { t.push_str(seps[rng.below(seps.len() as u64) as usize]); }
+            }
+            out.push((format!("hand-string-{ntok}-tokens"), t));
+        }
+    }
+    for _ in 0..(if thorough { 60_000 } else { 6_000 }) {
+        let len = rng.below(14);
+        let mut t = String::new();
+        for _ in 0..len {
+            let c = match rng.below(6) {
+                0 => alpha[rng.below(alpha.len() as u64) as usize],
+                1 => [' ', '\t', '\u{a0}', '\u{1680}', '\u{2028}', '\u{205f}', '\u{200b}'][rng.below(7) as usize],
+                2 => char::from_u32(rng.below(0x80) as u32).unwrap_or('?'),
+                3 => char::from_u32(0x2600 + rng.below(0x100) as u32).unwrap_or('?'),
+                _ => loop { if let Some(c) = char::from_u32(rng.below(0x110000) as u32) { break c; } },
+            };
+            t.push(c);
+        }
+        out.push(("seeded-unicode".into(), t));
+    }
+    out
+}
+
 /// keys for the product search: small keys, every table key and its neighbours, powers of two, seeded
 fn find_keys(rng: &mut Rng, seeded: usize) -> Vec<u64> {
     let mut keys: Vec<u64> = (0..4100).collect();
@@ -774,6 +831,67 @@ pub fn cases(prop: &str, thorough: bool, seed: u64, c: &mut Cases) {
             }
         }
         "C02" | "C03" | "C09" => cases_sixseven(c, &mut rng, thorough),
+        "C12" => {
+            for (kind, t) in c12_strings(&mut rng, thorough) {
+                c.emit(&format!("idx/{kind}"), &format!("idx {}", cps(&t)));
+                if kind.starts_with("hand-string") || kind == "seeded-unicode" || kind == "empty" {
+                    for n in 2..=7 {
+                        c.emit(&format!("parse{n}/{kind}"), &format!("parse {n} {}", cps(&t)));
+                    }
+                    c.emit(&format!("bcidx/{kind}"), &format!("bcidx {}", cps(&t)));
+                }
+            }
+            for w in layout_deck() {
+                c.emit("acc/52-cards (rank and suit characters)", &format!("acc {w}"));
+            }
+        }
+        "C19" => {
+            for n in 2..=7u64 {
+                // every slot as the written slot, from a known state
+                for k in 0..n {
+                    let init: Vec<u32> = (0..n).map(|i| 1000 + i as u32).collect();
+                    c.emit(&format!("hist{n}/every-slot"), &format!("hist {n} {} {k} 4242", join(&init)));
+                }
+                for _ in 0..(if thorough { 20_000 } else { 2_000 }) {
+                    let init: Vec<u32> = (0..n).map(|_| rng.next() as u32).collect();
+                    let len = 1 + rng.below(40);
+                    let mut ops = Vec::new();
+                    for _ in 0..len {
+                        ops.push(rng.below(n).to_string());
+                        ops.push((rng.next() as u32).to_string());
+                    }
+                    c.emit(&format!("hist{n}/seeded-history"), &format!("hist {n} {} {}", join(&init), ops.join(" ")));
+                }
+            }
+            for _ in 0..200 {
+                let w: Vec<u32> = (0..7).map(|_| rng.next() as u32).collect();
+                c.emit("six123", &format!("six123 {}", join(&w[..6])));
+                c.emit("sevennew", &format!("sevennew {}", join(&w)));
+            }
+            for n in [6u64, 7] {
+                let ws: Vec<u32> = (0..n).map(|i| 7000 + i as u32).collect();
+                let mut row = [0u64; 5];
+                loop {
+                    c.emit(&format!("pick{n}/every-in-range-index-tuple"), &format!("pick {n} {} {}", join(&ws), join(row)));
+                    let mut k = 4;
+                    loop {
+                        row[k] += 1;
+                        if row[k] < n { break; }
+                        row[k] = 0;
+                        if k == 0 { break; }
+                        k -= 1;
+                    }
+                    if row.iter().all(|x| *x == 0) { break; }
+                }
+                for bad in [n, n + 1, 255] {
+                    for pos in 0..5 {
+                        let mut r = [0u64, 1, 2, 3, 4];
+                        r[pos] = bad;
+                        c.emit(&format!("pick{n}/out-of-range-index"), &format!("pick {n} {} {}", join(&ws), join(r)));
+                    }
+                }
+            }
+        }
         "C15" => {
             let sym = deck_blank();
             for n in 2..=7usize {
@@ -1062,6 +1180,8 @@ pub fn sweep(prop: &str, thorough: bool, seed: u64) -> Sweep {
         "C13" => sweep_c13(seed, thorough),
         "C05" => sweep_c05(seed, thorough),
         "C06" => sweep_c06(),
+        "C12" => sweep_c12(seed, thorough),
+        "C19" => sweep_c19(seed, thorough),
         "C15" => sweep_c15(seed, thorough),
         "C16" => sweep_c16(seed, thorough),
         "C17" => sweep_c17(),
@@ -2455,5 +2575,157 @@ fn sweep_c16(seed: u64, thorough: bool) -> Sweep {
     s.rule = "all 64 one-bit and 2,016 two-bit values exhaustively, seeded values of every population count 0..64, structured sets: result, error kind, card order and round trip through from_two; non-trivial = exactly two bits".into();
     s.sample(format!("try_from(3) = {:?}", Two::try_from(3u64).map(|t| t.to_arr())));
     s.sample(format!("try_from(2^52 + 1) = {:?}", Two::try_from((1u64 << 52) + 1).map(|t| t.to_arr())));
+    s
+}
+
+fn spec_rank(c: char) -> Option<u32> {
+    Some(match c {
+        'A' | 'a' => 12, 'K' | 'k' => 11, 'Q' | 'q' => 10, 'J' | 'j' => 9, 'T' | 't' | '0' => 8,
+        '9' => 7, '8' => 6, '7' => 5, '6' => 4, '5' => 3, '4' => 2, '3' => 1, '2' => 0,
+        _ => return None,
+    })
+}
+fn spec_suit(c: char) -> Option<u32> {
+    Some(match c {
+        'S' | 's' | '♠' | '♤' => 3, 'H' | 'h' | '♥' | '♡' => 2, 'D' | 'd' | '♦' | '♢' => 1, 'C' | 'c' | '♣' | '♧' => 0,
+        _ => return None,
+    })
+}
+fn spec_token(t: &str) -> u32 {
+    let mut it = t.chars();
+    match (it.next().and_then(spec_rank), it.next().and_then(spec_suit)) {
+        (Some(r), Some(s)) => layout_word(r, s),
+        _ => 0,
+    }
+}
+/// whitespace-separated tokens, written out by hand over `char::is_whitespace`
+fn spec_tokens(t: &str) -> Vec<String> {
+    let mut out = Vec::new();
+    let mut cur = String::new();
+    for c in t.chars() {
+        if c.is_whitespace() {
+            if !cur.is_empty() { out.push(std::mem::take(&mut cur)); }
+        } else {
+            cur.push(c);
+        }
+    }
+    if !cur.is_empty() { out.push(cur); }
+    out
+}
+
+/// C12: parsers against the token grammar.
+fn sweep_c12(seed: u64, thorough: bool) -> Sweep {
+    let mut s = Sweep::default();
+    // the two symbol tables over every Unicode scalar value
+    for cp in 0u32..=0x10FFFF {
+        if let Some(c) = char::from_u32(cp) {
+            s.evaluations += 1;
+            let r = CardRank::from_char(c) as u32;
+            let su = CardSuit::from_char(c) as u32;
+            let want_r = spec_rank(c).map(|x| x + 2).unwrap_or(0);
+            let want_s = spec_suit(c).map(|x| x + 1).unwrap_or(0);
+            if r != want_r || su != want_s {
+                s.fail("rank / suit symbol table", &format!("U+{cp:04X}"), &format!("{want_r} {want_s}"), &format!("{r} {su}"));
+            }
+        }
+    }
+    s.count("unicode scalar values", 1_112_064);
+    let mut rng = Rng::new(seed ^ 0xC12);
+    for (kind, t) in c12_strings(&mut rng, thorough) {
+        s.evaluations += 1;
+        s.count(&kind, 1);
+        let want = spec_token(&t);
+        if want != 0 { s.nontrivial += 1; }
+        match guarded(|| <CKCNumber as PokerCard>::from_index(&t)) {
+            Some(g) if g == want => {}
+            Some(g) => s.fail("card token", &format!("{t:?}"), &want.to_string(), &g.to_string()),
+            None => s.fail("card token parsing panics", &format!("{t:?}"), &want.to_string(), "panic"),
+        }
+        let toks = spec_tokens(&t);
+        for n in 2..=7u64 {
+            let want_h = if toks.len() < n as usize { "none".to_string() } else { join(toks[..n as usize].iter().map(|x| spec_token(x))) };
+            let got = guarded(|| parse_hand(n, &t));
+            if got.as_deref() != Some(&want_h) {
+                s.fail(&format!("{n}-slot hand parser"), &format!("{t:?}"), &want_h, &format!("{got:?}"));
+            }
+        }
+        let want_bc = toks.iter().fold(0u64, |a, x| a | <BinaryCard as BC64>::from_ckc(spec_token(x)));
+        match guarded(|| <BinaryCard as BC64>::from_index(&t)) {
+            Some(g) if g == want_bc => {}
+            other => s.fail("bit-set from text", &format!("{t:?}"), &want_bc.to_string(), &format!("{other:?}")),
+        }
+    }
+    for w in layout_deck() {
+        s.evaluations += 2;
+        s.nontrivial += 2;
+        let a: String = [w.get_rank_char(), w.get_suit_char()].iter().collect();
+        let b: String = [w.get_rank_char(), w.get_suit_letter()].iter().collect();
+        if <CKCNumber as PokerCard>::from_index(&a) != w || <CKCNumber as PokerCard>::from_index(&b) != w {
+            s.fail("rendering a card and parsing it back", &format!("{a} / {b}"), &w.to_string(), &format!("{} {}", <CKCNumber as PokerCard>::from_index(&a), <CKCNumber as PokerCard>::from_index(&b)));
+        }
+    }
+    s.rule = "both symbol tables over all 1,112,064 scalar values; every pair of leading characters from {35 symbols, separators, multi-byte characters, NUL, non-symbols} x 4 tails, hand strings with 0..9 tokens and mixed separators, seeded Unicode strings: card token, the six hand parsers (incl. parse::five_from_index) and the text bit-set against a hand-written token grammar; 52 cards x 2 renderings round trip; non-trivial = the string starts with a card token".into();
+    s.sample(format!("from_index(\"tc!\") = {}", <CKCNumber as PokerCard>::from_index("tc!")));
+    s.sample(format!("Two::try_from(\"AS\\u{{a0}}K♠\") = {}", parse_hand(2, "AS\u{a0}K♠")));
+    s
+}
+
+/// C19: containers against a plain array receiving the same writes.
+fn sweep_c19(seed: u64, thorough: bool) -> Sweep {
+    let mut s = Sweep::default();
+    let mut rng = Rng::new(seed ^ 0xC19);
+    for n in 2..=7usize {
+        for round in 0..(if thorough { 200_000 } else { 20_000 }) {
+            let init: Vec<u32> = (0..n).map(|_| rng.next() as u32).collect();
+            let mut model = init.clone();
+            let Some(mut h) = H::mk(&init) else { continue };
+            let len = if round < n { 1 } else { 1 + rng.below(40) as usize };
+            let mut hist = Vec::new();
+            for step in 0..len {
+                let k = if round < n { round } else { rng.below(n as u64) as usize };
+                let x = rng.next() as u32;
+                hist.push(format!("set_{k}({x})"));
+                h.set_named(k as u64, x);
+                model[k] = x;
+                s.evaluations += 1;
+                s.nontrivial += 1;
+                if h.vec() != model || h.named() != model || h.iter_vec() != model {
+                    s.fail(&format!("{n}-slot container differs from an array with the same writes after step {step}"), &format!("{:?} {}", init, hist.join(" ")), &format!("{model:?}"), &format!("to_arr {:?} accessors {:?} iter {:?}", h.vec(), h.named(), h.iter_vec()));
+                    break;
+                }
+            }
+        }
+    }
+    for _ in 0..20_000 {
+        let w: Vec<u32> = (0..7).map(|_| rng.next() as u32).collect();
+        s.evaluations += 2;
+        let six = Six::from_1_and_2_and_3(w[0], Two::new(w[1], w[2]), Three::from([w[3], w[4], w[5]])).to_arr();
+        let seven = Seven::new(Two::new(w[0], w[1]), Five::new(w[2], w[3], w[4], w[5], w[6])).to_arr();
+        if six[..] != w[..6] || seven[..] != w[..] {
+            s.fail("constructor from parts", &join(&w), &join(&w), &format!("{six:?} {seven:?}"));
+        }
+    }
+    for n in [6usize, 7] {
+        let ws: Vec<u32> = (0..n).map(|i| 7000 + i as u32).collect();
+        let total = n.pow(5);
+        for t in 0..total {
+            let row: Vec<usize> = (0..5).map(|k| (t / n.pow(4 - k as u32)) % n).collect();
+            let perm = [row[0] as u8, row[1] as u8, row[2] as u8, row[3] as u8, row[4] as u8];
+            s.evaluations += 1;
+            let got = if n == 6 {
+                Six::from([ws[0], ws[1], ws[2], ws[3], ws[4], ws[5]]).five_from_permutation(perm).to_arr()
+            } else {
+                Seven::from([ws[0], ws[1], ws[2], ws[3], ws[4], ws[5], ws[6]]).five_from_permutation(perm).to_arr()
+            };
+            let want: Vec<u32> = row.iter().map(|i| ws[*i]).collect();
+            if got[..] != want[..] {
+                s.fail("five_from_permutation", &format!("{n} slots, row {row:?}"), &join(&want), &join(got));
+            }
+        }
+    }
+    s.rule = "seeded histories (constructor from an array of arbitrary words, then 1..40 named-setter calls) on Two..Seven compared after every step, read three ways (to_arr, named accessors, iter); the first histories of every size write each slot once; both composite constructors; every in-range index 5-tuple for slot selection from six and seven slots (6^5 + 7^5)".into();
+    let mut t = Three::from([1, 2, 3]);
+    t.set_third(9);
+    s.sample(format!("Three[1,2,3].set_third(9) -> {:?}", t.to_arr()));
     s
 }
